@@ -168,6 +168,21 @@ func zzNewNetflowV9() *NetflowV9 {
 	return p
 }
 
+// pipePool: the pool of worker quit channels of a protocol
+func pipePool(pr proto) chan chan struct{} {
+	switch x := pr.(type) {
+	case *IPFIX:
+		return x.pool
+	case *NetflowV9:
+		return x.pool
+	case *NetflowV5:
+		return x.pool
+	case *SFlow:
+		return x.pool
+	}
+	return nil
+}
+
 func pipePort(p int) int { return []int{4739, 4729, 9996, 6343}[p] }
 
 func pipeMQ(p int) chan []byte {
@@ -458,6 +473,9 @@ type pipeRun struct {
 	qcap       int
 	mqCap      int  // capacity of the outgoing queue (0 = 1000); nobody consumes it during a run
 	fitBuffer  bool // max-udp-size is set to the length of the longest datagram of the run: it fills the receive buffer exactly
+	// retire: after the first datagram has been processed, this many workers are retired the way the dynamic-worker
+	// controller does it when the load has gone (it takes their quit channels out of the pool and closes them)
+	retire int
 }
 
 type pipeObs struct {
@@ -524,10 +542,19 @@ func runPipe(r *pipeRun, out *pipeObs, mu *realsync.Mutex) {
 	port := pipePort(r.proto)
 	sched.WaitCond(func() bool { return venv.Conn(port) != nil }, "listening")
 	conn := venv.Conn(port)
-	for _, d := range r.seq {
+	for di, d := range r.seq {
 		conn.Deliver(d.ip, 50000, d.wire)
 		if r.paced {
 			sched.Quiesce()
+		}
+		if di == 0 && r.retire > 0 {
+			sched.Quiesce()
+			pool := pipePool(pr)
+			for k := 0; k < r.retire && len(pool) > 0; k++ {
+				q := <-pool
+				sched.ChanClose(q)
+				close(q)
+			}
 		}
 	}
 	sched.Quiesce()
@@ -1016,6 +1043,9 @@ func c13Items(tier string) []pipeItem {
 				}
 			}
 		}
+		// scale-down: one of two workers is retired after the first datagram; every later datagram is still counted,
+		// decoded and published once (by the worker that stays)
+		out = append(out, pipeItem{"one of two workers retired after the first datagram: dataB-short,dataA-mid,dataA-long", pipeRun{proto: p, workers: 2, seq: seqOf(al, "dataB-short", "dataA-mid", "dataA-long"), cache: cache, filter: filter, retire: 1}, 1})
 		// a datagram that fills the receive buffer EXACTLY (its length = <protocol>-max-udp-size) is a complete datagram
 		out = append(out, pipeItem{"receive buffer exactly as large as the longest datagram: dataB-short,dataA-long,dataA-mid", pipeRun{proto: p, workers: 1, seq: seqOf(al, "dataB-short", "dataA-long", "dataA-mid"), cache: cache, filter: filter, fitBuffer: true}, 1})
 		// the OUTGOING queue holds one message and nobody takes it: the workers must drop, not block, and go on counting
